@@ -3,11 +3,11 @@
    native OCaml types) and ExtrOcamlString (ascii -> char, string -> char list).
    nat, Z, positive, N stay the extracted Coq inductives. No Extract Constant /
    Extract Inductive of our own. coqc is run in the output directory. *)
-From Olareg Require Import Base Index Reg Route Gen_Routes Server GC Referrer Cache Config Gen_Config RateLimit.
+From Olareg Require Import Base Index Reg Route Gen_Routes Server GC Referrer Cache Config Gen_Config RateLimit Ingest.
 Require Extraction.
 Require Import ExtrOcamlBasic ExtrOcamlString.
 Extraction Language OCaml.
 Extraction "model.ml"
   apply_op get_desc get_by_annotation empty_index is_tag dvalid
   step run_hist init_state serve route_request gen_routes gen_default_status repo_ok path_els gstep split c_step new_cache
-  set_defaults spec_defaults gen_defaults rl_serve rl_ip reopen.
+  set_defaults spec_defaults gen_defaults rl_serve rl_ip reopen ingest_repo reload_repo set_repo get_repo.
